@@ -1,5 +1,5 @@
 import CTV.Model.GetEntries
-import CTV.Gen.HandlerChecks
+import CTV.Model.HandlerCheckSpec
 /-!
 # C07 — the model's reply checks are the regenerated handler bodies
 
@@ -16,7 +16,7 @@ theorem getEntriesRespond_tie (start end_ : Int) (treeSize : Nat) (leaves : List
     (getEntriesRespond start (Gen.getEntriesCount start end_) treeSize leaves).1 =
       (Gen.getEntries false start end_ false 0 false treeSize leaves.length (!indicesOk start leaves) false false false).1 := by
   have hw : I64.wrap64 (I64.sub (I64.add end_ 1) start) = I64.sub (I64.add end_ 1) start := I64.wrap64_id (I64.wrap64_inRange _)
-  simp only [getEntriesRespond, Gen.getEntries, Gen.getEntriesCount]
+  simp only [getEntriesRespond, Gen.getEntries_eq_spec, Spec.getEntries, Gen.getEntriesCount]
   by_cases hk : indicesOk start leaves = true <;> simp [hk, hw] <;> (repeat' split) <;> simp_all
 
 /-- served entries exist only with status 200 -/
@@ -29,7 +29,7 @@ theorem getEntryAndProofRespond_tie (li ts : Int) (treeSize : Nat) (leaf : Optio
     (getEntryAndProofRespond ts treeSize leaf proof).1 =
       (Gen.getEntryAndProof false li ts false 0 false treeSize leaf.isNone ((leaf.map (·.value.length)).getD 0) proof.isNone
         ((proof.map (·.length)).getD 0) false false).1 := by
-  simp only [getEntryAndProofRespond, Gen.getEntryAndProof]
+  simp only [getEntryAndProofRespond, Gen.getEntryAndProof_eq_spec, Spec.getEntryAndProof]
   rcases leaf with _ | l <;> rcases proof with _ | p <;> simp <;> (repeat' split) <;> simp_all [List.isEmpty_iff] <;> omega
 
 /-- `marshalGetEntriesResponse` (regenerated whole) has no error return: a leaf that does not decode is logged and still
